@@ -558,8 +558,8 @@ def merge(tmpl_toks, src_exec):
                 nt = Tok(t.kind, t.text, t.trivia if t.trivia else ' ', t.line)
                 out.append(nt)
             if i2 > i1:
-                inner = [t for t in tmpl_toks[first:stop] if t.ghost]
-                out.extend(inner)
+                # ghost code that stood between the replaced executable tokens has lost the statements it was
+                # written for: it is dropped (dropping ghost code can only make an obligation harder to prove)
                 pos = stop
     out.extend(tmpl_toks[pos:])
     return out
